@@ -377,3 +377,58 @@ def r05_8(ctx):
                 ctx.verdict(len(calls) == 1, "R05.8", f, "entry-routes-through-mutator", f.loc(), "entry.%s calls the container's public `%s` exactly once" % (f.name, f.name),
                             "entry `%s` does not go through the container's `%s` (calls: %d): the change would not be published like a direct call" % (f.path, f.name, len(calls)))
     ctx.floor("R05.8", n, 4)
+
+
+def r05_9(ctx):
+    """the batched stream delivers everything it received: the Vec<VectorDiff> it accumulates for one item (the value that
+    becomes `Some(batch)`) is only ever grown - a clear / truncate / pop / drain of it drops diffs of messages already taken
+    off the channel, so the item is no longer the concatenation of the updates. Expected count 0."""
+    F = ctx.facts
+    from .c06 import find_lag_handler
+    SHRINK = r"^std::vec::Vec::<.*>::(clear|truncate|pop|remove|swap_remove|drain|retain|retain_mut|split_off|dedup|dedup_by|dedup_by_key)$"
+    lag = find_lag_handler(F)
+    n = 0
+    for f in F.find(crate=IM, name="poll_next"):
+        if "VectorSubscriberBatchedStream" not in (f.raw.get("self_ty") or "") or not f.built:
+            continue
+        n += 1
+        b = inl(F, f, lag, desugar=True, tag="r05.9") or f.built
+        whole, _ = b.defs
+        # accumulators: Vec<VectorDiff> locals that flow into the returned Some(..)
+        acc = set()
+        for loc, kind, payload in blocks_assigning_ret(b):
+            if kind != "assign":
+                continue
+            work = [o for o in (payload.get("ops") or [])] if payload["k"] == "agg" else ([payload["op"]] if payload["k"] == "use" else [])
+            seen = set()
+            while work:
+                o = work.pop()
+                if o["k"] not in ("move", "copy") or o["place"]["proj"]:
+                    continue
+                l = o["place"]["l"]
+                if l in seen:
+                    continue
+                seen.add(l)
+                if re.match(r"std::vec::Vec<eyeball_im::VectorDiff<|std::vec::Vec<vector::VectorDiff<", str(b.locals[l]["ty"])):
+                    acc.add(l)
+                for loc2, kind2, p2 in whole.get(l, []):
+                    if kind2 == "assign" and p2["k"] == "agg":
+                        work.extend(p2["ops"])
+                    elif kind2 == "assign" and p2["k"] == "use":
+                        work.append(p2["op"])
+        bad = 0
+        for blk, t in b.calls(SHRINK):
+            a0 = t["args"][0]
+            if a0["k"] not in ("move", "copy") or a0["place"]["proj"]:
+                continue
+            tgt = None
+            for loc2, kind2, p2 in whole.get(a0["place"]["l"], []):
+                if kind2 == "assign" and p2["k"] == "ref" and not p2["place"]["proj"]:
+                    tgt = p2["place"]["l"]
+            if tgt in acc:
+                bad += 1
+                ctx.violated("R05.9", f, "batch-never-shrinks", b.line_at((blk, 10 ** 6)),
+                             "the batched stream applies `%s` to the batch it is collecting (the value it returns as Some(batch)): diffs of messages it has already received are dropped, so the item is not the concatenation of the pending updates and the intermediate states cannot be replayed" % (t.get("callee") or "").split("::")[-1])
+        if not bad:
+            ctx.holds("R05.9", f, "batch-never-shrinks", f.loc(), "the collected batch (locals %s) is only grown" % sorted(acc))
+    ctx.floor("R05.9", n, 1)
